@@ -53,12 +53,14 @@ Theorem C01_numbers_accepted_on_synced_view : forall b s, boxinv b ->
 Proof. exact synced_after_admit. Qed.
 Print Assumptions C01_numbers_accepted_on_synced_view.
 
-(* no EXPUNGE is sent to a session during its own non-UID STORE, SEARCH or FETCH *)
+(* no EXPUNGE is sent to a session during its own non-UID STORE, SEARCH or FETCH, in any world that satisfies the
+   invariant (every reachable one: C01_reachable_invariant) - the queue is sent a second time once the command has
+   been let through, and what is in it then is what the resync put there *)
 Theorem C01_no_expunge_during_store : forall w s st act silent flags,
-  clean_for s (snd (step w (OStore s false st act silent flags))).
+  winv w -> clean_for s (snd (step w (OStore s false st act silent flags))).
 Proof. exact store_seq_no_expunge. Qed.
 Print Assumptions C01_no_expunge_during_store.
-Theorem C01_no_expunge_during_search : forall w s flag, clean_for s (snd (step w (OSearch s false flag))).
+Theorem C01_no_expunge_during_search : forall w s flag, winv w -> clean_for s (snd (step w (OSearch s false flag))).
 Proof. exact search_seq_no_expunge. Qed.
 Print Assumptions C01_no_expunge_during_search.
 Theorem C01_no_expunge_during_fetch : forall w s st k, winv w -> clean_for s (snd (step w (OFetch s false st k))).
